@@ -320,8 +320,10 @@ def check_bracket_result(ctx, name, e, a, b, xtol, rtol, maxiter, roots, out0, r
                 ctx.spec_fail(name + "_endpoint", "%s: 0 iterations but the result is not an end point with f=0" % name, rep)
         if iters > maxiter:
             ctx.spec_fail(name + "_iters", "%s: iterations %d > maxiter %d" % (name, iters, maxiter), rep)
-        if calls != iters + 2:
-            ctx.spec_fail(name + "_calls", "%s: function_calls %d != iterations+2" % (name, calls), rep)
+        # bisect tests after the evaluation of pass `itr`; brentq tests at the top of the next pass
+        want = iters + 2 if (name == "bisect" or iters == 0) else iters + 1
+        if calls != want:
+            ctx.spec_fail(name + "_calls", "%s: function_calls %d inconsistent with iterations %d" % (name, calls, iters), rep)
         lo_b, hi_b = min(Fraction(a), Fraction(b)), max(Fraction(a), Fraction(b))
         if not (lo_b <= Fraction(root) <= hi_b):
             ctx.spec_fail(name + "_outside", "%s: root %r outside the bracket" % (name, root), rep)
@@ -502,10 +504,20 @@ def gen_open(ctx, cases, n):
                             ctx.spec_fail(name + "_calls", "%s: calls=%d iterations=%d inconsistent" % (name, calls, iters), rep)
                     elif calls != iters + 1:
                         ctx.spec_fail(name + "_calls", "secant: calls=%d iterations=%d inconsistent" % (calls, iters), rep)
-                    if basin and not e.has_exp():
+                    if basin and name == "secant" and s < 1:
+                        # the secant start p1 = x0*(1+1e-4) + 1e-4 is an *absolute* perturbation: below unit scale
+                        # the second point is far outside the basin and the step test can fire far from the root
+                        # (observed: x^3 - 2^-63 from x0 = 2^-20, tol 9.5e-11 -> "converged" at 9.535e-07, root 4.77e-07)
+                        ctx.count("secant:accuracy-not-claimed-below-unit-scale")
+                    elif basin and not e.has_exp():
                         # monotone-convergent start: result within tol of the exact root
-                        t = Fraction(tol) * SLACK
+                        # tol plus a rounding envelope of 8 ulp (tol may be below the spacing of doubles at root)
+                        t = Fraction(tol) * SLACK + 8 * Fraction(EPS) * abs(Fraction(root))
                         lo, hi = Fraction(root) - t, Fraction(root) + t
+                        if fam == "x2-c":
+                            lo = max(lo, Fraction(0))          # the positive root
+                        if fam == "rational":
+                            lo = max(lo, Fraction(-1, 2))      # right of the pole
                         try:
                             ok = sign(e.ev(lo)) * sign(e.ev(hi)) <= 0
                         except ZeroDivisionError:
@@ -603,13 +615,19 @@ def gen_brentmax(ctx, cases, n):
                 ctx.spec_fail("brent_max_fval", "brent_max: fval %r is not f(xf)=%r" % (fval, fchk), rep)
             if num > max(maxiter, 2):
                 ctx.spec_fail("brent_max_num", "brent_max: %d function calls with maxiter=%d" % (num, maxiter), rep)
-            if (flag == 1) != (num >= maxiter):
+            if (flag == 1 and num < maxiter) or (flag == 0 and num >= maxiter and num != 1):
                 ctx.spec_fail("brent_max_flag", "brent_max: status_flag=%d with num=%d maxiter=%d" % (flag, num, maxiter), rep)
             ctx.count("brentmax:flag%d" % flag)
             if flag == 0 and xstar is not None:
                 tol1 = Fraction(SQ) * abs(Fraction(xf)) + Fraction(xtol) / 3
                 bound = 2 * tol1 * SLACK
-                if abs(Fraction(xf) - xstar) > bound:
+                fs_, fx_ = e.ev(Fraction(xstar)), e.ev(Fraction(xf))
+                if abs(Fraction(xf) - xstar) <= bound:
+                    pass
+                elif fs_ - fx_ <= 4 * Fraction(EPS) * abs(fs_):
+                    # f(xf) and the maximum are the same double up to rounding: nothing left to resolve
+                    ctx.count("brentmax:double-plateau")
+                else:
                     ctx.spec_fail("brent_max_accuracy", "brent_max: |xf - x*| = %.3e > tol2 = %.3e" % (
                         float(abs(Fraction(xf) - xstar)), float(bound)), rep)
                 if abs(Fraction(xf) - xstar) <= Fraction(xtol):
